@@ -90,24 +90,32 @@ CONTRACTS[F + 'FastHierarchyAnalyzer._get_selection_choice_is_forced'] = dict(
     defs={
         'member': (('c', 'i'), MEMBER),
         'follows': (('c', 'i'), f'{CONS}[c].type == ChoiceConstraintType.LINKED and member(c, i) and exists(j, 0, i, member(c, j))'),
+        'linked_with_another': (('c', 'i'), f'{CONS}[c].type == ChoiceConstraintType.LINKED and member(c, i) and exists(j, 0, len({NODES}), j != i and member(c, j))'),
     },
     loops={
         'for choice_constraint in self.adsg.get_choice_constraints()': dict(index='k', invariant={
             'shape': f'len(is_forced) == len({NODES})',
             'index-of-each-choice': f'forall(p, 0, len({NODES}), {NODES}[p] in i_choice_nodes and i_choice_nodes[{NODES}[p]] == p)',
             'only-choices-indexed': f"forall('x:Ref', implies(x in i_choice_nodes, 0 <= i_choice_nodes[x] and i_choice_nodes[x] < len({NODES}) and {NODES}[i_choice_nodes[x]] == x))",
-            'forced-so-far': f'forall(i, 0, len({NODES}), is_forced[i] == exists(c, 0, k, follows(c, i)))',
+            'following-members-forced': f'forall(i, 0, len({NODES}), forall(c, 0, k, implies(follows(c, i), is_forced[i])))',
         }),
         'for i_dep in i_choices[1:]': dict(index='q', invariant={
             'shape': f'len(is_forced) == len({NODES})',
             'index-of-each-choice': f'forall(p, 0, len({NODES}), {NODES}[p] in i_choice_nodes and i_choice_nodes[{NODES}[p]] == p)',
             'only-choices-indexed': f"forall('x:Ref', implies(x in i_choice_nodes, 0 <= i_choice_nodes[x] and i_choice_nodes[x] < len({NODES}) and {NODES}[i_choice_nodes[x]] == x))",
-            'forced-so-far': f'forall(i, 0, len({NODES}), is_forced[i] == (exists(c, 0, k, follows(c, i)) or exists(a, 1, q + 1, i_choices[a] == i)))',
+            'following-members-forced': f'forall(i, 0, len({NODES}), forall(c, 0, k, implies(follows(c, i), is_forced[i])))',
+            'processed-members-forced': f'forall(a, 1, q + 1, is_forced[i_choices[a]])',
         }),
     },
     ensures={
         'one-flag-per-choice': ('property', f'len(result) == len({NODES})'),
-        'later-linked-members-follow-the-first': ('property', f'forall(i, 0, len({NODES}), result[i] == exists(c, 0, len({CONS}), follows(c, i)))'),
+        # every member of a LINKED constraint that comes after another member (in the analyzer's own order) is forced
+        'later-linked-members-follow-the-first': ('property', f'forall(i, 0, len({NODES}), forall(c, 0, len({CONS}), implies(follows(c, i), result[i])))'),
+    },
+    # the other half (nothing else is forced, in particular the FIRST member keeps its variable) needs "the sorted list
+    # is a permutation of the member indices": beyond the solver. It is evaluated on the function's bounded domain only.
+    exec_ensures={
+        'exactly-the-later-members': f'forall(i, 0, len({NODES}), result[i] == exists(c, 0, len({CONS}), follows(c, i)))',
     },
     modifies=[],
 )
